@@ -621,6 +621,18 @@ def server_scenarios(rng, eng, msgs, n, tier):
             chunks = [stream] if r.chance(1, 2) else random_chunking(r, stream)
             case = f"SV b {rs(chunks)} {ws([])} {len(frames)} " + " ".join("A " + a[0][2:] for a in answers)
             out.append((case, ("ret", xb(b"".join(a[1] for a in answers))), "retransmission-origin-host", len(frames)))
+    # a frame whose last AVP lacks its padding (Message Length 29, 30, 31: not a multiple of four) between good requests: malformed - the
+    # connection ends there, in every build profile (the thorough tier repeats this on the release build)
+    for k, n in enumerate((1, 2, 3, 5)):
+        r = rng.fork(f"nopad{k}")
+        reqs = [msgs[r.below(len(msgs))] for _ in range(3)]
+        answers = [msgs[r.below(len(msgs))] for _ in range(3)]
+        avp = gen.be(1011, 4) + b"\0" + gen.be(8 + n, 3) + b"x" * n
+        bad = bytes([1]) + gen.be(20 + len(avp), 3) + bytes([0x80]) + gen.be(272, 3) + gen.be(4, 4) + gen.be(1, 4) + gen.be(2, 4) + avp
+        stream = reqs[0][1] + bad + reqs[1][1] + reqs[2][1]
+        case = f"SV g {rs([stream])} {ws([])} 3 " + " ".join("A " + a[0][2:] for a in answers)
+        exp = f"SV failed CALLS 1 [{reqs[0][2]}] WRITTEN {xb(answers[0][1])}"
+        out.append((case, exp, "frame-without-final-padding", 3))
     # retransmitted requests (T flag) whose handler answers with the request's flags minus R - T, P, E and their combinations kept: the
     # answer written is the handler's, flag octet included
     for k, afl in enumerate([0x10, 0x50, 0x30, 0x70, 0x20, 0x40, 0x60, 0x00]):
